@@ -236,6 +236,66 @@ fn judge(sc: &Scenario, out: &Outcome, crash_images: &AtomicU64) -> Vec<(String,
 /// A real ReplicatedShardedState with a real WAL actor (always-fsync) attached executes commands one after another; at
 /// the instant each reply arrives, a crash (files cut to their last successful sync) must still recover the update
 /// of that command and of every earlier one.
+/// Two lives of one WAL: the first actor (always-fsync) takes `n1` writes one after another; for EVERY prefix of its I/O
+/// log the process dies there (unsynced bytes lost), a second actor is started on what is left - as a restarted server
+/// does - and takes `n2` writes; then everything on disk is recovered. Every write the first life acknowledged before the
+/// crash and every write the second life acknowledged must be there.
+fn restart_case(gce: usize, rotate_every: usize, n1: usize, n2: usize) -> Result<u64, (String, String)> {
+    let sc = Scenario { gce, rotate_every, writers: vec![], faults: vec![], advances: 0, shutdown: false, truncate: None, retry: false };
+    let rt = tokio::runtime::Builder::new_current_thread().enable_time().start_paused(true).build().unwrap();
+    let cfg = || WalConfig {
+        enabled: true,
+        wal_dir: "/nonexistent".into(),
+        fsync_policy: FsyncPolicy::Always,
+        max_file_size: sc.max_file_size(),
+        group_commit_max_entries: gce,
+        group_commit_max_wait: WAIT,
+        truncation_check_interval: Duration::from_secs(3600),
+    };
+    let shape = format!("gce={} rotate={}", if gce == 1 { "1" } else { ">1" }, match rotate_every { 0 => "never", 1 => "every-entry", _ => "every-2nd" });
+    let desc = format!("always-fsync WAL (group commit {gce}, rotation {}): {n1} durable writes, crash, restart on what is left, {n2} more durable writes, recovery", match rotate_every { 0 => "never", 1 => "after every entry", _ => "after every 2nd entry" });
+    rt.block_on(async {
+        let store = VWalStore::new();
+        let (h1, _j1) = spawn_wal_actor(store.clone(), cfg()).map_err(|e| ("restart: spawn failed".to_string(), format!("{desc}: {e}")))?;
+        let mut acked_at: Vec<(u64, usize)> = Vec::new();
+        for k in 0..n1 {
+            let ts = 101 + k as u64;
+            h1.write_durable(Arc::new(delta(ts)), ts).await.map_err(|e| ("restart: first-life write failed".to_string(), format!("{desc}: write {ts}: {e}")))?;
+            acked_at.push((ts, store.log().len()));
+        }
+        let log = store.log();
+        let mut images = 0u64;
+        for p in 0..=log.len() {
+            let img = VWalStore::crash_image(&log, p);
+            let store2 = VWalStore::from_image(&img);
+            let (h2, _j2) = match spawn_wal_actor(store2.clone(), cfg()) {
+                Ok(x) => x,
+                Err(e) => return Err((format!("restart: second life does not start {shape}"), format!("{desc}: crash after {p} of {} I/O calls: {e}", log.len()))),
+            };
+            let mut want: Vec<u64> = acked_at.iter().filter(|(_, at)| *at <= p).map(|(ts, _)| *ts).collect();
+            for k in 0..n2 {
+                let ts = 201 + k as u64;
+                h2.write_durable(Arc::new(delta(ts)), ts).await.map_err(|e| (format!("restart: second-life write failed {shape}"), format!("{desc}: crash after {p} of {} I/O calls; write {ts}: {e}", log.len())))?;
+                want.push(ts);
+            }
+            images += 1;
+            // what is on disk now (the last acknowledged write has synced everything before it)
+            let final_files = store2.files_now();
+            let rot = WalRotator::new(VWalStore::from_image(&final_files), 1 << 30).map_err(|e| (format!("restart: recovery failed {shape}"), format!("{desc}: crash after {p} I/O calls: {e}")))?;
+            let got: BTreeSet<u64> = rot.recover_all_entries().map_err(|e| (format!("restart: recovery failed {shape}"), format!("{desc}: crash after {p} I/O calls: {e}")))?.iter().map(|e| e.timestamp).collect();
+            let lost: Vec<u64> = want.iter().copied().filter(|t| !got.contains(t)).collect();
+            if !lost.is_empty() {
+                let life = if lost.iter().any(|t| *t < 200) { "first-life" } else { "second-life" };
+                return Err((
+                    format!("restart: acked-write-lost {life} {shape}"),
+                    format!("{desc}: crash after {p} of {} I/O calls of the first life ({}); acknowledged writes {:?} are not among the recovered {:?}; files {:?}", log.len(), log.get(p.saturating_sub(1)).map(|o| format!("last call: {} {}", o.kind, o.file)).unwrap_or_default(), lost, got, final_files.iter().map(|(k, v)| (k.clone(), v.len())).collect::<Vec<_>>()),
+                ));
+            }
+        }
+        Ok(images)
+    })
+}
+
 fn node_wiring_case(gce: usize, rotate_every: usize, n: usize) -> Result<u64, (String, String)> {
     use redis_sim::production::ReplicatedShardedState;
     use redis_sim::replication::ReplicationConfig;
@@ -294,6 +354,19 @@ fn main() {
     vh::quiet_panics();
     if let Some(path) = &args.replay {
         let r = vh::report::load_replay(path);
+        if r["restart"] == json!(true) {
+            match restart_case(r["gce"].as_u64().unwrap() as usize, r["rotate_every"].as_u64().unwrap() as usize, r["n1"].as_u64().unwrap() as usize, r["n2"].as_u64().unwrap() as usize) {
+                Err((sig, detail)) => {
+                    println!("{detail}");
+                    println!("VIOLATION property=C09 replay={} ({sig})", path.display());
+                    std::process::exit(1);
+                }
+                Ok(n) => {
+                    println!("replay: no violation ({n} crash points)");
+                    std::process::exit(0);
+                }
+            }
+        }
         if r["node_wiring"] == json!(true) {
             match node_wiring_case(r["gce"].as_u64().unwrap() as usize, r["rotate_every"].as_u64().unwrap() as usize, r["n"].as_u64().unwrap() as usize) {
                 Err((sig, detail)) => {
@@ -454,7 +527,24 @@ fn main() {
             }
         }
     }
+    // two lives of one WAL
+    let restart_items: Vec<(usize, usize, usize, usize)> = [1usize, 8].iter().flat_map(|g| [1usize, 2, 0].into_iter().flat_map(move |r| [(1usize, 1usize), (2, 2), (3, 1), (4, 3)].into_iter().map(move |(a, b)| (*g, r, a, b)))).collect();
+    let restart_images: u64 = par::par_map(&restart_items, |_, (g, r, a, b)| match std::panic::catch_unwind(|| restart_case(*g, *r, *a, *b)) {
+        Ok(Ok(i)) => i,
+        Ok(Err((sig, detail))) => {
+            rep.violation(sig, detail, json!({"restart": true, "gce": g, "rotate_every": r, "n1": a, "n2": b}));
+            0
+        }
+        Err(p) => {
+            rep.violation("restart: panic".to_string(), vh::panic_text(&p), json!({"restart": true, "gce": g, "rotate_every": r, "n1": a, "n2": b}));
+            0
+        }
+    })
+    .into_iter()
+    .sum();
     let coverage = json!({
+        "restart_on_a_crash_image": {"cases": restart_items.len(), "crash_points_restarted_from": restart_images,
+            "rule": "a first always-fsync WAL actor takes 1..4 writes; for every prefix of its I/O log: crash image, a second actor started on it takes 1..3 writes, then recovery of everything on disk: every write acknowledged by the first life before the crash and every write acknowledged by the second life is recovered (6 group-commit x rotation configurations)"},
         "node_wiring": {"cases": wiring_cases, "crash_images_recovered": wiring_images, "rule": "a real ReplicatedShardedState with a real always-fsync WAL actor attached (set_wal_handle) executes 1..9 commands (SET / HSET / INCRBY / DEL) one after another under 9 group-commit x rotation configurations; at the instant each reply arrives a crash image (files cut to their last successful sync) is recovered: the update of that command and of every earlier one must be in it"},
         "evaluations": execs,
         "distinct_nontrivial": distinct,
